@@ -11,7 +11,8 @@ import p_filter as PF
 LEAN_TARGETS = ["Verif.Props.C15", "Verif.Props.Ties"]
 LEVEL = "proof"
 ASSUMPTIONS = [
-    "text is a sequence of Unicode scalar values (no lone surrogates)",
+    "text is a str that from_string can encode: Unicode scalar values and the surrogate-escape code points U+DC80..U+DCFF (which stand for the bytes "
+    "0x80..0xFF); any other lone surrogate cannot be encoded to UTF-8 at all (UnicodeEncodeError before parsing starts) and is not text",
     "error offsets/lengths are byte offsets into the UTF-8 encoding of the stripped input (the parser's own coordinate system)",
 ]
 
@@ -48,7 +49,7 @@ def run(ctx):
     swept = 0
     for tpl in templates:
         for cp in range(0x110000):
-            if 0xD800 <= cp <= 0xDFFF:
+            if 0xD800 <= cp <= 0xDFFF and not (0xDC80 <= cp <= 0xDCFF):
                 continue
             t = tpl.replace("{c}", chr(cp))
             swept += 1
